@@ -148,6 +148,24 @@ func findGlobalWrites(c *Ctx, fns []*ssa.Function) (writes []globalWrite, nparam
 								addr, kind = x.Call.Args[0], bi.Name()
 							}
 						}
+					} else if cal := x.Call.StaticCallee(); (cal == nil || !inRepo(cal)) && !x.Call.IsInvoke() {
+						// shared storage handed to code outside the repository (binary.PutUint32(buf[:]), sort.Slice(tbl), …):
+						// it may be written there
+						for _, a := range x.Call.Args {
+							if !isRefLike(a.Type()) {
+								continue
+							}
+							if g := globalRoot(a, paramRoots, map[ssa.Value]bool{}); g != nil {
+								name := "<dynamic>"
+								if cal != nil {
+									name = cal.String()
+								}
+								if pureCallees[name] {
+									continue
+								}
+								writes = append(writes, globalWrite{f, g, ins.Pos(), "passed to " + name})
+							}
+						}
 					}
 				}
 				if addr == nil {
@@ -200,7 +218,47 @@ func ruleR2(c *Ctx, r *Report, allowed map[string]bool) {
 			}
 		}
 	}
-	r.RuleCounts["R2-globals"] = nglob
+	// one obligation per package-level variable of the library: who writes it outside init
+	writersOf := map[string][]string{}
+	for _, w := range writes {
+		if isInitFunc(w.fn) {
+			continue
+		}
+		k := strings.TrimPrefix(strings.TrimPrefix(w.g.Pkg.Pkg.Path(), ModPath), "/") + "." + w.g.Name()
+		writersOf[k] = append(writersOf[k], SSAFuncName(w.fn))
+	}
+	for _, p := range c.Pkgs {
+		if !IsLib(p) {
+			continue
+		}
+		sp := c.SSAPkg(p)
+		var names []string
+		for n, m := range sp.Members {
+			if _, ok := m.(*ssa.Global); ok && !strings.HasPrefix(n, "init$") {
+				names = append(names, n)
+			}
+		}
+		sort.Strings(names)
+		for _, n := range names {
+			g := sp.Members[n].(*ssa.Global)
+			k := pkgShort(p) + "." + n
+			ws := writersOf[k]
+			okAll := true
+			for _, w := range ws {
+				if !allowed[w] {
+					okAll = false
+				}
+			}
+			if okAll {
+				d := "written only during package initialisation"
+				if len(ws) > 0 {
+					d = "written outside init only by the registry mutators"
+				}
+				r.OK("R2-globals", k, c.Pos(g.Pos()), d)
+			}
+			// the violating writers are reported per (function, variable) below
+		}
+	}
 	r.Floor("R2-globals", 25)
 	seenAllowed := map[string]bool{}
 	type key struct{ fn, g string }
@@ -355,4 +413,11 @@ func inRepo(f *ssa.Function) bool {
 		}
 	}
 	return false
+}
+
+// pureCallees: functions outside the repository that are known not to write through their reference arguments.
+var pureCallees = map[string]bool{
+	"bytes.Equal": true, "bytes.Compare": true, "bytes.HasPrefix": true, "bytes.Contains": true, "bytes.Index": true,
+	"encoding/hex.EncodeToString": true, "strings.Join": true, "fmt.Sprintf": true, "fmt.Errorf": true, "fmt.Fprintf": true,
+	"fmt.Sprint": true, "fmt.Println": true, "fmt.Printf": true, "fmt.Fprintln": true,
 }
